@@ -1,7 +1,14 @@
 """Sidecar contracts for teaal/ir/flow_graph.py (FlowGraph.__hoist/__sort/__build_loop_nest) and
 teaal/trans/hifiber.py (HiFiber.__trans_nodes) - property C10."""
 
-MODULES = {"FlowGraph": "teaal/ir/flow_graph.py", "HiFiber": "teaal/trans/hifiber.py"}
+MODULES = {"FlowGraph": "teaal/ir/flow_graph.py", "HiFiber": "teaal/trans/hifiber.py",
+           "RankNode": "teaal/ir/flow_nodes.py"}
+CLOSED_HIERARCHIES = ["Node"]
+HIERARCHY_OUT_OF_SCOPE = {
+    "teaal/ir/part_nodes.py:PartitioningNode": "node of the partitioning graph (Partitioning.graph); never placed in a FlowGraph",
+    "teaal/ir/part_nodes.py:FlattenNode": "node of the partitioning graph; never placed in a FlowGraph",
+    "teaal/ir/part_nodes.py:RankNode": "node of the partitioning graph; never placed in a FlowGraph",
+}
 
 OBJ_CLASSES = {
     "FlowGraph": {"program": "Program", "metrics": "Optional[Metrics]", "graph": "DiGraph",
